@@ -289,12 +289,10 @@ fn ident(m: &M) -> Vec<u8> {
     m.enc()
 }
 pub fn array_distinct(m: &M) -> M {
-    let mut seen: Vec<Vec<u8>> = vec![];
+    let mut seen: std::collections::BTreeSet<Vec<u8>> = Default::default();
     let mut out = vec![];
     for x in as_list(m) {
-        let k = ident(&x);
-        if !seen.contains(&k) {
-            seen.push(k);
+        if seen.insert(ident(&x)) {
             out.push(x);
         }
     }
@@ -303,21 +301,24 @@ pub fn array_distinct(m: &M) -> M {
 /// (intersection, except): each element of `a` goes to the intersection as many times
 /// as it also occurs in `b`, to the rest otherwise
 pub fn array_partition(a: &M, b: &M) -> (M, M) {
-    let mut pool: Vec<Vec<u8>> = as_list(b).iter().map(ident).collect();
+    let mut pool: BTreeMap<Vec<u8>, usize> = BTreeMap::new();
+    for y in as_list(b) {
+        *pool.entry(ident(&y)).or_insert(0) += 1;
+    }
     let (mut inter, mut rest) = (vec![], vec![]);
     for x in as_list(a) {
-        let k = ident(&x);
-        if let Some(p) = pool.iter().position(|y| *y == k) {
-            pool.swap_remove(p);
-            inter.push(x);
-        } else {
-            rest.push(x);
+        match pool.get_mut(&ident(&x)) {
+            Some(c) if *c > 0 => {
+                *c -= 1;
+                inter.push(x);
+            }
+            _ => rest.push(x),
         }
     }
     (M::Arr(inter), M::Arr(rest))
 }
 pub fn array_overlap(a: &M, b: &M) -> bool {
-    let bl: Vec<Vec<u8>> = as_list(b).iter().map(ident).collect();
+    let bl: std::collections::BTreeSet<Vec<u8>> = as_list(b).iter().map(ident).collect();
     as_list(a).iter().any(|x| bl.contains(&ident(x)))
 }
 
